@@ -162,8 +162,8 @@ def gen_cases(tier: str, seed: int) -> List[Dict]:
                 cases.append({"id": "%s-%03d-%s" % (PROP, n, fn), "op": fn, "fn": fn, "operands": operands, "options": opt, "limits": lim})
     # native dtype layer ("arbitrary dtypes"): literal coefficients at the edges of each dtype; alignment must hand every value back
     # exactly, whatever it has to broadcast / widen.  (Symbolically these are ordinary exact numbers.)
-    dts = ["uint64", "int64", "uint32", "int32", "uint16", "int16", "uint8", "int8", "bool", "float32", "float16", "float64"]
-    for dt in dts if not quick else rng.sample(dts[2:], 3) + ["uint64", "int64"]:
+    dts = ["uint64", "int64", "uint32", "int32", "uint16", "int16", "uint8", "int8", "bool", "float32", "float16", "float64", ">i8", ">f8", ">u4", ">c16", ">i2"]
+    for dt in dts if not quick else rng.sample(dts[2:12], 3) + ["uint64", "int64"] + rng.sample(dts[12:], 2):
         for fn in FUNCS:
             # shapes under which *every* operand has to be broadcast by the shape-aligning functions
             a = S.extreme_poly_spec(("q0", "q2"), [[0, 0], [1, 0], [0, 2]], (1, 2), dt, rng)
